@@ -199,6 +199,6 @@ def rule_o_wrap(ctx):
                    % (desc, b.path, ta or tb, op.lower()))
         else:
             R.inst(fn=b.path, site=b.where(loc), expr=desc, verdict="untainted")
-    if n < 10:
-        R.anchor("overflow-sites", "expected >= 10 overflow-checked arithmetic sites in configuration F1, found %d (was the crate compiled with overflow checks?)" % n)
+    if n < 5:
+        R.anchor("overflow-sites", "expected >= 5 overflow-checked arithmetic sites in configuration F1, found %d (was the crate compiled with overflow checks?)" % n)
     return R
